@@ -1,5 +1,6 @@
 import Resolvo.Props.C15
 import Resolvo.MDet.CheckedProofs
+import Resolvo.MDet.TruthSpec
 /-! C15 (b) lifted to the checked model of `solve`. -/
 namespace Resolvo.C15
 open Resolvo Resolvo.MDet
@@ -32,5 +33,43 @@ theorem pair_never_ok (U : Universe) (P : Problem) (fuel : Nat) (s : S) (vi vj c
 /-- and when exactly one candidate is required and a valid selection exists, it never answers Unsolvable -/
 theorem single_never_unsat (U : Universe) (P : Problem) (fuel : Nat) (s : S) (hs : Solvable U P) :
     ∀ c, (solveChecked U P fuel s).1 ≠ .unsat c := solveChecked_soft_never_error U P fuel s hs
+
+/-! ### The exact model applies the at-most-one encoding to the right variables
+
+The encoding proved above (`amo_sound`, `amo_complete_*`) constrains *variables*; these three facts, for every run of the
+exact model of `Solver::solve`, say the variables are the right ones: a solvable has one variable, every variable an
+at-most-one tracker holds stands for a solvable of that tracker's package, and every forbid clause is about a solvable of
+the package it names. -/
+
+/-- one variable per solvable: two variables of the model never stand for the same solvable -/
+theorem solvable_variable_unique (U : Universe) (hU : WFU U) (P : Problem) (fuel : Nat) (s0 : S) (v v' x : Nat)
+    (h1 : Abs.oSolv (solveRun U P fuel s0).2.origins v = some x) (h2 : Abs.oSolv (solveRun U P fuel s0).2.origins v' = some x) :
+    v = v' := by
+  have hi := solveRun_tinv U hU P fuel s0
+  have key : ∀ w, Abs.oSolv (solveRun U P fuel s0).2.origins w = some x →
+      (solveRun U P fuel s0).2.solvVar.lookup x = some w := by
+    intro w hw
+    apply hi.extra.inj
+    unfold Abs.oSolv at hw
+    split at hw
+    · next y heq => cases hw; exact heq
+    · cases hw
+  have a := key v h1
+  rw [key v' h2] at a
+  exact (Option.some.inj a).symm
+
+/-- every variable an at-most-one tracker holds stands for a solvable of that tracker's package -/
+theorem tracker_vars_of_package (U : Universe) (hU : WFU U) (P : Problem) (fuel : Nat) (s0 : S) (name : Nat) (tr : Amo.Tracker)
+    (h : (solveRun U P fuel s0).2.trackers.lookup name = some tr) :
+    ∀ x ∈ tr.vars, ∃ sx, Abs.oSolv (solveRun U P fuel s0).2.origins x = some sx ∧ U.nameOf sx = name :=
+  (solveRun_tinv U hU P fuel s0).trk name tr h
+
+/-- every forbid clause of the model is about a solvable of the package it names -/
+theorem forbid_clause_of_package (U : Universe) (hU : WFU U) (P : Problem) (fuel : Nat) (s0 : S) (c : MClause)
+    (hc : c ∈ (solveRun U P fuel s0).2.clauses.toList) (a h n : Nat) (pos : Bool) (hk : c.kind = .forbid a h pos n) :
+    ∃ sx, Abs.oSolv (solveRun U P fuel s0).2.origins a = some sx ∧ U.nameOf sx = n := by
+  have := (solveRun_tinv U hU P fuel s0).kinds c hc
+  rw [hk] at this
+  exact this
 
 end Resolvo.C15
